@@ -153,6 +153,16 @@ theorem cfun_array_peek : LibSrc.cfun_array_peek = "(int32_t v1, Janet *v2) { ja
 theorem cfun_array_push : LibSrc.cfun_array_push = "(int32_t v1, Janet *v2) { janet_arity(v1, 1, -1); JanetArray *v3 = janet_getarray(v2, 0); if (INT32_MAX - v1 + 1 <= v3->count) { janet_panic(\"array overflow\"); } int32_t v4 = v3->count - 1 + v1; janet_array_ensure(v3, v4, 2); if (v1 > 1) memcpy(v3->data + v3->count, v2 + 1, (size_t)(v1 - 1) * sizeof(Janet)); v3->count = v4; return v2[0]; }" := rfl
 /-- src/core/buffer.c cfun_buffer_slice -/
 theorem cfun_buffer_slice : LibSrc.cfun_buffer_slice = "(int32_t v1, Janet *v2) { janet_arity(v1, 1, 3); JanetByteView v3 = janet_getbytes(v2, 0); JanetRange v4 = janet_getslice(v1, v2); JanetBuffer *v5 = janet_buffer(v4.end - v4.start); if (v5->data) memcpy(v5->data, v3.bytes + v4.start, v4.end - v4.start); v5->count = v4.end - v4.start; return janet_wrap_buffer(v5); }" := rfl
+/-- src/core/pp.c scanformat -/
+theorem scanformat : LibSrc.scanformat = "( const char *v1, char *v2, char v3[3], char v4[3]) { const char *v5 = v1; memset(v3, '\\0', 3); memset(v4, '\\0', 3); while (*v5 != '\\0' && strchr(FMT_FLAGS, *v5) != NULL) v5++; if ((size_t)(v5 - v1) >= sizeof(FMT_FLAGS)) janet_panic(\"invalid format (repeated flags)\"); if (isdigit((int)(*v5))) v3[0] = *v5++; if (isdigit((int)(*v5))) v3[1] = *v5++; if (*v5 == '.') { v5++; if (isdigit((int)(*v5))) v4[0] = *v5++; if (isdigit((int)(*v5))) v4[1] = *v5++; } if (isdigit((int)(*v5))) janet_panic(\"invalid format (width or precision too long)\"); *(v2++) = '%'; const char *v6 = v1; while (v6 <= v5) { char *v7 = strchr(FMT_REPLACE_INTTYPES, *v6); if (v7 != NULL && *v7 != '\\0') { const char *v8 = get_fmt_mapping(*v6++); size_t v9 = strlen(v8); memcpy(v2, v8, v9); v2 += v9; } else { *(v2++) = *(v6++); } } *v2 = '\\0'; return v5; }" := rfl
+/-- src/core/pp.c get_fmt_mapping -/
+theorem get_fmt_mapping : LibSrc.get_fmt_mapping = "(char v1) { for (size_t v2 = 0; v2 < (sizeof(format_mappings) / sizeof(struct FmtMapping)); v2++) { if (format_mappings[v2].c == v1) return format_mappings[v2].mapping; } janet_assert(0, \"bad format mapping\"); }" := rfl
+/-- src/core/pp.c #define FMT_FLAGS -/
+theorem define_FMT_FLAGS : LibSrc.define_FMT_FLAGS = "\"-+ #0\"" := rfl
+/-- src/core/pp.c #define FMT_REPLACE_INTTYPES -/
+theorem define_FMT_REPLACE_INTTYPES : LibSrc.define_FMT_REPLACE_INTTYPES = "\"diouxX\"" := rfl
+/-- src/core/pp.c #define MAX_FORMAT -/
+theorem define_MAX_FORMAT : LibSrc.define_MAX_FORMAT = "32" := rfl
 /-- boot.janet each-template -/
 theorem boot_each_template : LibSrc.boot_each_template = "(defn- each-template [v1 v2 v3 v4] (with-syms [v5] (def v6 (if (idempotent? v2) v2 (gensym))) ~(do ,(unless (= v6 v2) ~(def ,ds ,inx)) (var ,k (,next ,ds nil)) (while (,not= nil ,k) (def ,binding ,(case v3 :each ~(,in ,ds ,k) :keys v5 :pairs ~[,k (,in ,ds ,k)])) ,;body (set ,k (,next ,ds ,k))))))" := rfl
 /-- boot.janet median-of-three -/
